@@ -191,9 +191,10 @@ def run(ctx):
             acc = accept_map[fn.short]
             bad = []
             for (bx, (r, cnt), it) in absint.explore(P, run_val(fn, 2), [[(0, 255), (0, 255)]]):
-                want = acc[bx[0][0]] and acc[bx[1][0]]
-                uniform = all(acc[v] == acc[bx[0][0]] for v in range(bx[0][0], bx[0][1] + 1)) and all(acc[v] == acc[bx[1][0]] for v in range(bx[1][0], bx[1][1] + 1))
-                if not uniform or not (isinstance(r, AV) and r.is_const()) or bool(r.lo) != want:
+                a0 = set(acc[v] for v in range(bx[0][0], bx[0][1] + 1))
+                a1 = set(acc[v] for v in range(bx[1][0], bx[1][1] + 1))
+                expected = set(x and y for x in a0 for y in a1)       # verdicts the conjunction takes on this box
+                if not (isinstance(r, AV) and r.is_const()) or expected != {bool(r.lo)}:
                     bad.append(bx)
             ctx.check(not bad, R2, '%s:pairs-are-conjunction' % fn.short, 'verdict of a 2-byte string is not the conjunction of its bytes: %s' % (bad[:1],), fn.where)
     ctx.floor(R2, 16)
@@ -234,10 +235,11 @@ def run(ctx):
     fu = PE.fn('cppcms::encoding::(anonymous namespace)::validate_or_filter_utf8')
     outp = q.param_by_index(fu, 2)
     g_ok = q.call_gate(fu, lambda i: False, True)
-    lps = [L for L in q.loops(fu)]
-    ctx.check(len(lps) == 2, R4, 'filter_utf8:two-passes', 'expected a validating pass and a filtering pass', fu.where)
-    if len(lps) == 2:
-        L2 = lps[1]
+    # the filtering pass is the loop that appends to the output (the validating pass may be a loop here or a helper)
+    lps = [L for L in q.loops(fu) if [i for i in fu.calls(fu.N(L)['body']) if q.short_of(fu.callee(i)) == 'append' and fu.ref_of(fu.obj(i)) == outp]]
+    ctx.check(len(lps) == 1, R4, 'filter_utf8:filtering-pass', 'expected one filtering loop that appends to the output', fu.where)
+    if len(lps) == 1:
+        L2 = lps[0]
         body = fu.N(L2)['body']
         aps = [i for i in fu.calls(body) if q.short_of(fu.callee(i)) == 'append' and fu.ref_of(fu.obj(i)) == outp]
         g_valid = fu.gate_edges(lambda atom, pol: fu.N(atom)['k'] == 'BinaryOperator' and fu.N(atom).get('op') in ('!=', '==') and any(fu.bcallee(j) == 'cppcms::utf8::next' and fu.const_value(fu.args(j)[2]) == 1 for j in fu.calls(atom)) and
@@ -275,7 +277,22 @@ def run(ctx):
             ptr = fs.ref_of(a[0])
             pd = fs.defs_of_var(ptr)
             one = any(fs.const_value(j) == 1 for j in fs.walk(a[1])) and ptr in fs.subtree_refs(a[1])
-            ok = one and len(pd) == 1 and pd[0][1] is not None and lv and fs.ref_of(pd[0][1]) == lv[0]
+            if lv and ptr == lv[0]:
+                # the copied pointer itself is handed to the tester: by value (so it cannot be advanced), and not
+                # moved between the test and the copy within one iteration
+                byval = fs.N(a[0])['k'] == 'ImplicitCastExpr' and fs.N(a[0]).get('cast') == 'LValueToRValue'
+                cb = fs.point_of(fs.N(lps[0])['cond'])[0] if fs.N(lps[0]).get('cond', -1) >= 0 and fs.point_of(fs.N(lps[0])['cond']) else None
+                moved = False
+                for w in q.writes_to(fs, ptr, body):
+                    pw, pt, pc = fs.point_of(w), fs.point_of(tc[0]), fs.point_of(copies[0])
+                    if pw is None:
+                        continue
+                    after_t = (pw[0] == pt[0] and pw[1] > pt[1]) or (pw[0] != pt[0] and pw[0] in fs.reachable_blocks(start=pt[0], cut_blocks=[cb] if cb is not None else []))
+                    before_c = (pw[0] == pc[0] and pw[1] < pc[1]) or (pw[0] != pc[0] and pc[0] in fs.reachable_blocks(start=pw[0], cut_blocks=[cb] if cb is not None else []))
+                    moved = moved or (after_t and before_c)
+                ok = one and byval and not moved
+            else:
+                ok = one and len(pd) == 1 and pd[0][1] is not None and lv and fs.ref_of(pd[0][1]) == lv[0]
         ctx.check(ok, R4, 'filter_8bit:copy-only-the-validated-byte', 'a byte is copied without being validated on its own', fs.where)
     g_all = q.call_gate(fs, lambda i: fs.N(i)['k'] == 'CallExpr' and fs.ref_of(fs.N(i)['ch'][0]) == tst and not q.enclosing_loops(fs, i), True)
     succ = q.nonfalse_returns(fs)
